@@ -149,3 +149,93 @@ def getitem_arms(fn):
 
     walk(fn.body)
     return item, arms
+
+
+# ---------------------------------------------------------------- iteration class
+def input_loops(fn, fctx):
+    """for-loops (and comprehensions) of `fn` that iterate an input dataset / an iterator over one"""
+    out = []
+    for n in A.walk_local(fn):
+        if isinstance(n, (ast.For, ast.AsyncFor)):
+            k = fctx.kind(n.iter)
+            if k in ('DS', 'ITER') or (k == 'SELF'):
+                out.append(n)
+    return out
+
+
+def iteration_class(ctx, cls):
+    """structural flags of cls.__iter__ (resolved):
+    conditional  a yield inside the per-element loop is control dependent on a test
+    catching     a yield / lookup inside the per-element loop sits in a try with handlers
+    nested       the per-element loop contains another loop that yields (1:n)
+    random       iteration reaches a random draw
+    buffered     elements are collected in a local container and yielded later
+    infinite     an unconditional `while True` around the input iteration
+    indexdriven  loops over range(len(..)) / keys / a stored index array and looks examples up
+    escapes      the input is handed to a helper (prefetch / parallel map)
+    raises_only  never yields
+    """
+    mem = cls.resolve('__iter__')
+    flags = set()
+    if mem is None or not mem.is_function:
+        return flags, None
+    fn = mem.node
+    effs = ctx.effects.closed_effects(cls, '__iter__')
+    local, fctx = ctx.effects.local_effects(fn, cls, mem.owner.module)
+    if any(e.etype == 'RNG_DRAW' for e in effs):
+        flags.add('random')
+    if any(e.etype == 'ESCAPE' and e.info[0] in ('lazy_parallel_map', 'single_thread_prefetch')
+           for e in effs):
+        flags.add('escapes')
+    ys = A.yields_in(fn)
+    if not ys and not any(isinstance(n, ast.Return) and n.value is not None for n in A.walk_local(fn)):
+        flags.add('raises_only')
+    loops = [n for n in A.walk_local(fn) if isinstance(n, (ast.For, ast.AsyncFor, ast.While))]
+    for y in ys:
+        chain = []
+        for a in A.ancestors(y):
+            if a is fn:
+                break
+            chain.append(a)
+        encl_loops = [a for a in chain if isinstance(a, (ast.For, ast.AsyncFor, ast.While))]
+        if not encl_loops:
+            continue
+        inner = encl_loops[0]
+        outer = encl_loops[-1]
+        # statements between the yield and its innermost loop
+        upto = chain[:chain.index(inner)]
+        if any(isinstance(a, ast.If) for a in upto):
+            flags.add('conditional')
+        if any(isinstance(a, ast.Try) and a.handlers for a in upto):
+            flags.add('catching')
+        if len(encl_loops) >= 2:
+            inner_is_input = isinstance(inner, ast.For) and fctx.kind(inner.iter) in ('DS', 'ITER', 'SELF')
+            outer_iter = outer.iter if isinstance(outer, ast.For) else None
+            if isinstance(outer, ast.While) and A.is_const(outer.test, True):
+                flags.add('infinite')
+            elif outer_iter is not None and fctx.kind(outer_iter) == 'DSSEQ':
+                pass    # iterating the tuple of inputs
+            elif not inner_is_input or fctx.kind(outer_iter) in ('DS', 'ITER', 'SELF'):
+                flags.add('nested')
+    for n in A.walk_local(fn):
+        if isinstance(n, ast.While) and A.is_const(n.test, True) and \
+                any(isinstance(x, ast.YieldFrom) for x in A.walk_stmts(n.body)):
+            if not any(isinstance(x, (ast.Break, ast.Return)) for x in A.walk_stmts(n.body)):
+                flags.add('infinite')
+        if isinstance(n, ast.For):
+            it = n.iter
+            d = A.dotted(it.func) if isinstance(it, ast.Call) else None
+            if d == 'range' or (isinstance(it, ast.Call) and isinstance(it.func, ast.Attribute)
+                                and it.func.attr == 'keys') or A.is_self_attr(it):
+                if any(e.etype in ('GETITEM', 'SELFCALL') for e in local):
+                    flags.add('indexdriven')
+            if isinstance(it, ast.Attribute) and A.is_self_attr(it) and cls.resolve(it.attr) is not None \
+                    and cls.resolve(it.attr).kind == 'property':
+                flags.add('indexdriven')
+    # local buffers: X.append(elem) in an input loop with yields of X / X.pop
+    for n in A.walk_local(fn):
+        if isinstance(n, ast.Call) and isinstance(n.func, ast.Attribute) and n.func.attr == 'append' \
+                and isinstance(n.func.value, ast.Name):
+            if any(isinstance(a, (ast.For, ast.While)) for a in A.ancestors(n)):
+                flags.add('buffered')
+    return flags, fn
